@@ -95,6 +95,7 @@ func checkC02(c *Ctx) {
 		var gs []*SynGrammar
 		if done == 0 {
 			gs = append(gs, curatedSyn()...)
+			gs = append(gs, repoSynGrammars()...)
 		}
 		for i := 0; i < n; i++ {
 			gs = append(gs, genSynGrammar(rng, c02Opts))
